@@ -814,8 +814,9 @@ def unit_bit_lemmas(eng):
 
 
 # ---------------------------------------------------------------- register numbers written '%e' inside addressing forms (C08: exception freedom, finding D7)
-PCT_SHAPES = ["(%e)", "@%e", "(%e)+", "@(%e)+", "-(%e)", "@-(%e)", "x(%e)", "@x(%e)", "@(%e)"]
-PCT_MODE = {"(%e)": 1, "@%e": 1, "(%e)+": 2, "@(%e)+": 3, "-(%e)": 4, "@-(%e)": 5, "x(%e)": 6, "@x(%e)": 7, "@(%e)": 7}
+PCT_SHAPES = ["(%e)", "@%e", "(%e)+", "@(%e)+", "-(%e)", "@-(%e)", "x(%e)", "@x(%e)", "@(%e)", "a-b(%e)", "@a+b(%e)", "-a(%e)"]
+PCT_MODE = {"(%e)": 1, "@%e": 1, "(%e)+": 2, "@(%e)+": 3, "-(%e)": 4, "@-(%e)": 5, "x(%e)": 6, "@x(%e)": 7, "@(%e)": 7, "a-b(%e)": 6, "@a+b(%e)": 7, "-a(%e)": 6}
+PCT_HOISTED = ("a-b(%e)", "@a+b(%e)", "-a(%e)")
 
 
 def pct_shape(eng, shape):
@@ -841,6 +842,23 @@ def pct_shape(eng, shape):
         return op(eng, "deferred", op(eng, "call", x, reg)), nv
     if shape == "@(%e)":
         return op(eng, "deferred", paren(eng, reg)), nv
+    # hoisted forms with the register spelled %e: 'a-b(%e)' parses as a-(b(%e)), '-a(%e)' as -(a(%e))
+    if shape in ("a-b(%e)", "@a+b(%e)"):
+        a, va = leaf_value(eng, "a")
+        b, vb = leaf_value(eng, "b")
+        opn = "sub" if shape == "a-b(%e)" else "add"
+        node = op(eng, opn, a, op(eng, "call", b, reg))
+        node.attrs["resolve"] = Builtin("resolve", lambda eng_, state, _n=node, _o=opn: eng_.binop(
+            ast.Sub() if _o == "sub" else ast.Add(),
+            eng_.call(eng_.getattr(_n.attrs["lhs"], "resolve"), [state], {}), eng_.call(eng_.getattr(_n.attrs["rhs"], "resolve"), [state], {})))
+        eng.I["index"] = va - vb if opn == "sub" else va + vb
+        return (op(eng, "deferred", node) if shape.startswith("@") else node), nv
+    if shape == "-a(%e)":
+        a, va = leaf_value(eng, "a")
+        node = op(eng, "neg", op(eng, "call", a, reg))
+        node.attrs["resolve"] = Builtin("resolve", lambda eng_, state, _n=node: eng_.binop(ast.Sub(), 0, eng_.call(eng_.getattr(_n.attrs["operand"], "resolve"), [state], {})))
+        eng.I["index"] = -va
+        return node, nv
     raise ValueError(shape)
 
 
@@ -866,6 +884,13 @@ def unit_rm_pct(eng, shape, reg_lazy):
             return
         if not errors(eng):
             eng.prove("mode-register-field", z3.And(n >= 0, n < 8, final(val[0]) == PCT_MODE[shape] * 8 + n))
+        if shape in PCT_HOISTED:
+            idx = eng.I["index"]
+            valid = z3.And(n >= 0, n < 8, idx > -65536, idx < 65536)
+            if errors(eng):
+                eng.prove("an-index-expression-before-(%e)-is-refused-only-for-an-invalid-register-number-or-index(the same as with rN)", z3.Not(valid))
+            else:
+                eng.prove("extension-word-is-the-index-expression-mod-2^16", zbytes(final(val[1])) == le16(idx % 65536))
     r = verify(eng, name, run, post, func="insns.RegisterModeOperandStub.encode")
     for o_ in r["obligations"]:
         o_["cfg"] = dict(kind="pct", shape=shape, reg_lazy=reg_lazy)
